@@ -121,6 +121,13 @@ def work(item):
             with engine_events.observe() as events:
                 run_concrete(text)
                 site = sorted(set(events))
+            if site:
+                # causal test: with that read answered by the engine's ordinary cycle handling instead of the cache,
+                # is the program rejected?  Only then is the known defect the cause.
+                with engine_events.observe(bypass=True):
+                    k2, r2 = run_concrete(text)
+                if not (k2 == "error" and isinstance(r2, GroundingError)):
+                    site = []
             st.violation("answered:%s" % (site[0] if site else pkey),
                          "query/evidence atom %s has no two-valued truth value in world %s but inference returned %s" % (
                              wit[0], wit[1], res),
